@@ -444,6 +444,36 @@ pub fn exec(lineno: usize, l: &str) -> String {
                 _ => panic!("bad size"),
             }
         },
+        // projection for C05: for every ranking entry point only "returned normally?"; for a
+        // five-slot hand that contains a blank also the value / name / class it was given
+        "rankp" => {
+            let v = nums();
+            let n = v[0] as usize;
+            fn okp<T>(o: &mut String, r: Option<T>) {
+                o.push_str(if r.is_some() { " ok" } else { " P" });
+            }
+            fn all<H: HandRanker + HandValidator>(h: &H, o: &mut String) {
+                okp(o, guard(|| h.hand_rank_value()));
+                okp(o, guard(|| h.hand_rank()));
+                okp(o, guard(|| h.hand_rank_value_and_hand()));
+                okp(o, guard(|| h.hand_rank_value_validated()));
+                okp(o, guard(|| h.hand_rank_validated()));
+            }
+            match n {
+                5 => {
+                    let h = Five::from(a5(&v[1..]));
+                    all(&h, &mut o);
+                    okp(&mut o, guard(|| evaluate::five_cards(a5(&v[1..]))));
+                    if v[1..].contains(&0) {
+                        push_opt(&mut o, guard(|| h.hand_rank_value()));
+                        push_opt(&mut o, guard(|| hr_str(&h.hand_rank())));
+                    }
+                },
+                6 => all(&Six::from(a6(&v[1..])), &mut o),
+                7 => all(&Seven::from(a7(&v[1..])), &mut o),
+                _ => panic!("bad size"),
+            }
+        },
         "fip" => {
             let k = nums()[0] as usize;
             push_opt(&mut o, guard(|| Five::find_in_products(k)));
